@@ -266,6 +266,10 @@ def unit(arg):
         try:
             if kind == 'limit':
                 base = unlimited(logic, argstr, seed)
+                if len(base[0]) > (extra or 40):
+                    # outside the stated bound on proof length (cost grows quadratically)
+                    out['skipped_long'] = out.get('skipped_long', 0) + 1
+                    continue
                 ex, paths = explore(lambda d: limit_fn(d, logic, argstr, seed, base), (), budget)
             elif kind == 'time':
                 base = unlimited(logic, argstr, seed)
@@ -314,7 +318,7 @@ def run(ctx):
     budget = 60 if ctx.quick else 300
     for name in names:
         sel = fam.select(pool, 10 if ctx.quick else 60, ctx.seed + 17, name) + small[:3]
-        units.append(('limit', name, list(dict.fromkeys(sel)), ctx.seed, budget, None))
+        units.append(('limit', name, list(dict.fromkeys(sel)), ctx.seed, budget * 2, 40 if ctx.quick else 120))
     time_logics = ['CPL', 'FDE', 'K3', 'K', 'S4', 'S5FDE', 'D', 'KK3WQ'] if ctx.quick else names
     for name in time_logics:
         units.append(('time', name, small[:4] if ctx.quick else small, ctx.seed, budget * 2, 2500))
@@ -351,7 +355,8 @@ def run(ctx):
     rep.coverage = dict(
         states=paths, transitions=trans, traces_validated_against_impl=0,
         samples=list(kinds.values())[:3], units=nunits,
-        bounds=dict(step_limit='k over all integers, one class per prefix; 13 arguments per logic (quick)',
+        bounds=dict(step_limit='k over all integers, one class per prefix; 13 arguments per logic (quick), '
+                               'proofs of natural length <= 40 (quick) / 120 steps',
                     time_limit='T over all integers; clock = arbitrary non-decreasing instants; '
                                f'{len(time_logics)} logics x small arguments',
                     lifecycle=f'up to {3 if ctx.quick else 4} calls from {list(CALLS)} on '
